@@ -463,7 +463,7 @@ func Related(t *rapid.T, label string, a BitmapSpec, pol KindPolicy) (BitmapSpec
 			full.AddRange(uint64(c.Key)<<16+iv.Lo, uint64(c.Key)<<16+iv.Hi)
 		}
 		return fromSet(t, label, full, pol, "threshold"), "threshold"
-	case 8: // same keys, value spans that lie entirely above or below A's span in each chunk; same kind as A's chunk where legal
+	case 8: // same keys, value spans that lie entirely above or below A's span in each chunk (or touch it in one value); same kind as A's chunk where legal
 		var b BitmapSpec
 		for i, c := range a.Chunks {
 			as := model.FromIntervals(c.Ivs)
@@ -471,11 +471,16 @@ func Related(t *rapid.T, label string, a BitmapSpec, pol KindPolicy) (BitmapSpec
 			lbl := fmt.Sprintf("%s.d%d", label, i)
 			var ivs []model.Iv
 			above := rapid.Bool().Draw(t, lbl+".above")
-			gap := uint64(rapid.SampledFrom([]int{1, 2, 64, 1000}).Draw(t, lbl+".gap"))
+			gap := uint64(rapid.SampledFrom([]int{0, 1, 2, 64, 1000}).Draw(t, lbl+".gap")) // 0: the two sides share exactly the border value
 			switch {
 			case above && hi+gap <= 65535:
 				s0 := hi + gap
-				e0 := s0 + uint64(rapid.IntRange(0, 6000).Draw(t, lbl+".len"))
+				l := uint64(rapid.IntRange(0, 6000).Draw(t, lbl+".len"))
+				if ca := as.Card(); ca < 4096 && rapid.IntRange(0, 2).Draw(t, lbl+".sumThreshold") == 1 {
+					// the two cardinalities add up to 4096 / 4097 / 4098 (array/bitmap border of a disjoint union)
+					l = uint64(rapid.SampledFrom([]int{4096, 4097, 4098}).Draw(t, lbl+".sum")) - ca - 1
+				}
+				e0 := s0 + l
 				if e0 > 65535 || rapid.IntRange(0, 3).Draw(t, lbl+".toEdge") == 0 {
 					e0 = 65535
 				}
